@@ -437,7 +437,9 @@ int main(int argc, char** argv) {
 
     // ---- section 3: race pass (free-running, ThreadSanitizer) -- a monitor, reported separately
     {
-        std::string mk = "make -s -C " + run.verifDir + " -f harness/Makefile REPO=" + run.repoDir + " B=" + run.buildDir + " " + run.buildDir + "/bin/C33_tsan 2>&1";
+        // same (relative) spelling of the build directory as bin/check and bin/setup.sh, so the depfile targets match
+        std::string bdir = run.buildDir.rfind(run.verifDir + "/", 0) == 0 ? run.buildDir.substr(run.verifDir.size() + 1) : run.buildDir;
+        std::string mk = "make -s -C " + run.verifDir + " -f harness/Makefile REPO=" + run.repoDir + " B=" + bdir + " " + bdir + "/bin/C33_tsan 2>&1";
         FILE* p = popen(mk.c_str(), "r"); std::string out; char buf[4096];
         while (p && fgets(buf, sizeof buf, p)) out += buf;
         int rc = p ? pclose(p) : -1;
